@@ -4,6 +4,6 @@ CONSTANTS
   NValues = 2
   MaxEnv = 5
   MaxInc = 1
-  MaxRaise = 1
+  MaxRaise = 0
   MaxBlock = 1
 CHECK_DEADLOCK FALSE
